@@ -268,6 +268,20 @@ def myopic_case(rep, rng):
 			S_under, S_over, s_under, s_over = myopic_bounds(T, h, p, th_, tp_, c, K, mean, sd)
 			# the same numbers given as floats (1 vs 1.0) are the same instance
 			fl = myopic_bounds(T, float(h), float(p), float(th_), float(tp_), float(c), float(K), float(mean), float(sd))
+			# ... and so are its list forms: length T, or length T+1 whose 0th element is documented to be ignored (whatever it holds)
+			try:
+				ls = myopic_bounds(T, [h] * T, [9.5] + [p] * T, th_, tp_, [7.5] + [c] * T, [33] + [K] * T, [mean] * T, [5.5] + [sd] * T)
+				ar = myopic_bounds(T, np.array([2.5] + [h] * T), [p] * T, th_, tp_, np.array([c] * T), np.array([41.0] + [K] * T), np.array([3.0] + [mean] * T), [sd] * T)
+			except Exception as e:
+				rep.diff('myopic_bounds', 'the instance is solved when given as scalars but raises %s (%s) when the same numbers are given as lists of length T / T+1 (0th element documented as ignored)' % (
+					err_enum(e), str(e)[:80]), case, oracle=True)
+				return
+		rep.count('myopic:list-forms-compared')
+		for form_, other_ in (('lists (length T / T+1 with a stray 0th element)', ls), ('arrays', ar)):
+			for nm_, a_, b_ in zip(('S_underbar', 'S_overbar', 's_underbar', 's_overbar'), (S_under, S_over, s_under, s_over), other_):
+				if any(abs(float(x) - float(y)) > 1e-9 for x, y in zip(list(a_)[1:], list(b_)[1:])):
+					rep.diff('myopic_bounds', '%s differs between scalar arguments and the same instance given as %s: %s vs %s' % (nm_, form_, list(a_)[1:], list(b_)[1:]), case, oracle=True)
+					break
 		for nm_, a_, b_ in zip(('S_underbar', 'S_overbar', 's_underbar', 's_overbar'), (S_under, S_over, s_under, s_over), fl):
 			if any(abs(float(x) - float(y)) > 1e-9 for x, y in zip(list(a_)[1:], list(b_)[1:])):
 				rep.diff('myopic_bounds', '%s differs between integer-valued and float-valued arguments of the same instance: %s vs %s' % (nm_, list(a_)[1:], list(b_)[1:]), case, oracle=True)
